@@ -1558,10 +1558,10 @@ impl Relation {
         }
         // If this was the last relation in the entry, remove the entire entry
         if let Some(mut parent) = self.0.parent().and_then(Entry::cast) {
+            // Detach first: the entry only becomes empty once this relation is gone
+            self.0.detach();
             if parent.is_empty() {
                 parent.remove();
-            } else {
-                self.0.detach();
             }
         } else {
             self.0.detach();
